@@ -1,4 +1,5 @@
 import N0Verif.Proofs.CompareOpts
+import N0Verif.Proofs.CompareTransform
 /-!
 # C10 — exclude_xpaths, compare_only and transform only narrow or map what is compared
 
@@ -49,6 +50,43 @@ theorem C10_compare_only (cfg : Cfg) (a b : Val) (r : Res)
     (h : compareTop { cfg with only := .many [] } a b = .ok r) :
     ∃ r', compareTop cfg a b = .ok r' ∧ r'.diffPart = (r.filterPaths (onlyKeep cfg)).diffPart :=
   only_filter cfg a b r h
+
+/-- **C10 (transform, ordered comparison).** `LeafTransform`: every function is the identity on
+containers, maps scalars to scalars and `None` to a scalar or `None`.  For `direct_compare`, every
+other option and every flag record: the run with `transform` on the original trees and the run without
+it on the mapped trees (`mapT`: the first matching function applied to every leaf at a dictionary entry
+whose path matches and to every leaf element of a list whose own path matches) raise the same exception
+or return results of the same *shape* — same number of lines, same paths and kinds in all four lists.
+So two leaves count as equal iff their transformed values are equal, and no difference is hidden or
+invented … -/
+theorem C10_transform_partial (cfg : Cfg) (hd : cfg.direct = true) (hl : LeafTransform cfg) (a b : Val) :
+    TrERel (compareTop cfg a b) (compareTop (noTransf cfg) (mapT cfg [] a) (mapT cfg [] b)) :=
+  compareTop_tr cfg hd hl a b
+
+/-- … in particular the verdict is the verdict on the mapped trees; the values shown are the originals
+(`C09_not_equal_faithful` holds for every transform). -/
+theorem C10_transform_verdict (cfg : Cfg) (hd : cfg.direct = true) (hl : LeafTransform cfg) (a b : Val) :
+    verdict (compareTop cfg a b) = verdict (compareTop { cfg with tr := [] } (mapT cfg [] a) (mapT cfg [] b)) :=
+  transform_direct_verdict cfg hd hl a b
+
+/-- the full-strength statement (both entry points); refuted for the keyed entry point by
+`C10_transform_keyed_cex` — finding C10-a, not a gap -/
+def C10_transform_stmt : Prop :=
+  ∀ (cfg : Cfg), LeafTransform cfg → ∀ a b : Val,
+    TrERel (compareTop cfg a b) (compareTop (noTransf cfg) (mapT cfg [] a) (mapT cfg [] b))
+
+/-- finding C10-a: the keyed compare pairs non-record list items by `str()` of the *untransformed* value:
+`{'a': ['A']}` vs `{'a': ['a']}` with `('//a', lower)` reports two differences although the mapped trees are equal -/
+theorem C10_transform_keyed_cex :
+    (match compareTop trCexCfg trCexA trCexB with | .ok r => r.diffs | .error _ => 0) = 2 ∧
+      mapT trCexCfg [] trCexA = mapT trCexCfg [] trCexB ∧
+      (match compareTop { trCexCfg with tr := [] } (mapT trCexCfg [] trCexA) (mapT trCexCfg [] trCexB) with
+        | .ok r => r.diffs | .error _ => 1) = 0 :=
+  transform_keyed_cex
+
+example : LeafTransform trCexCfg := trCexCfg_leaf
+example : (match compareTop { trCexCfg with direct := true } trCexA trCexB with | .ok r => r.diffs | .error _ => 1) = 0 :=
+  transform_direct_example
 
 /-! Non-vacuity: patterns of every kind; a pair where each option really filters. -/
 example : matchOne "/a[0]/Name".toList "//name".toList = true := by decide
